@@ -15,7 +15,7 @@ LEVEL = "exploration"
 RULE = ("hostile inputs - random bytes (several distributions, 0..64 KiB), valid streams with bit flips / byte inserts / deletes "
         "/ splices / truncation, and structure-aware hostile streams from the independent wire encoder (declared frame, row and "
         "string lengths up to 2^63, table sizes up to 2^32, 10^5 entries, quoted triples nested past the protobuf recursion "
-        "limit, options rows in odd places, gzip/zlib/bz2/xz/deflate members that would inflate to 0.3-64 MB, options rows with enum/version values the schema does not name, well-formed streams whose strings (language tag, lexical form, datatype, name, prefix, blank-node label, stream name, namespace name) are long single-class runs ending in one odd character, 10^3..10^6 empty frames alone and in front of a well-formed frame (3*10^5 of them always through all six entry points, 10^6 through two), invalid UTF-8, unknown fields, groups) - are fed from BytesIO, "
+        "limit, options rows in odd places, version-2 streams declaring one prefix label 3-200 times with different namespaces, gzip/zlib/bz2/xz/deflate members that would inflate to 0.3-64 MB, options rows with enum/version values the schema does not name, well-formed streams whose strings (language tag, lexical form, datatype, name, prefix, blank-node label, stream name, namespace name) are long single-class runs ending in one odd character, 10^3..10^6 empty frames alone and in front of a well-formed frame (3*10^5 of them always through all six entry points, 10^6 through two), invalid UTF-8, unknown fields, groups) - are fed from BytesIO, "
         "real files and non-seekable raw / buffered sources to the six parse entry points inside a watchdogged child process with faulthandler. Per input the "
         "child journals start/end, outcome, CPU time, a logical step count (sys.monitoring PY_START inside pyjelly) and the "
         "growth of the resident high-water mark. Violations: interpreter killed by a signal; a non-Exception BaseException; "
@@ -113,7 +113,7 @@ def hostile(rng):
     big = rng.choice([1 << 20, (1 << 31) - 1, 1 << 31, 1 << 32, 1 << 40, 1 << 62, (1 << 63) - 1, (1 << 64) - 1])
     kind = rng.choice(["frame-length", "row-length", "string-length", "table-size", "many-entries", "deep-nesting",
                        "odd-options", "empty-frames", "bad-utf8", "unknown-fields", "many-metadata", "nondelimited-huge",
-                       "entry-id-huge", "ref-huge", "options-repeat-flood", "awkward-strings", "awkward-strings", "enum-values", "compressed-bomb"])
+                       "entry-id-huge", "ref-huge", "options-repeat-flood", "awkward-strings", "awkward-strings", "enum-values", "compressed-bomb", "namespace-redeclared"])
     head = wire.enc_stream([{"rows": [("options", _opts())]}], True)
     if kind == "frame-length":
         return kind, rng.choice([b"", head]) + wire.enc_varint(big) + rng.randbytes(rng.randint(0, 40))
@@ -160,6 +160,21 @@ def hostile(rng):
         frames = [{"rows": [("options", _opts())], "metadata": [(f"k{i}", b"v" * 10) for i in range(500)]}] + \
             [{"rows": [], "metadata": [("k", b"v")]} for _ in range(2000)]
         return kind, wire.enc_stream(frames, True)
+    if kind == "namespace-redeclared":
+        # a well-formed version-2 stream that declares the same prefix label again and again with other namespaces,
+        # and labels that look like what a renaming scheme would produce (ex, ex1, ex2, ex_1 ...)
+        k = rng.choice([3, 4, 10, 200])
+        base = rng.choice(["ex", "", "ns", "a"])
+        labels = [base] * k if rng.random() < .5 else [rng.choice([base, base + "1", base + "2", base + "_1", base + "11"]) for _ in range(k)]
+        rows = [("options", _opts(version=2, max_prefix_table_size=8))]
+        for i, lab in enumerate(labels):
+            rows += [("prefix", {"id": (i % 8) + 1, "value": f"http://e/{i}/"}), ("name", {"id": (i % 8) + 1, "value": ""}),
+                     ("namespace", {"name": lab, "value": ("iri", (i % 8) + 1, (i % 8) + 1)})]
+        rows.append(("triple", {"s": ("iri", 1, 1), "p": ("iri", 1, 1), "o": ("bnode", "b")}))
+        if rng.random() < .5:
+            cut = rng.randint(1, len(rows) - 1)
+            return kind, wire.enc_stream([{"rows": rows[:cut]}, {"rows": rows[cut:]}], True)
+        return kind, wire.enc_stream([{"rows": rows}], True)
     if kind == "compressed-bomb":
         # a few hundred bytes that INFLATE to megabytes if anything on the way decompresses them: Jelly has no compressed
         # container, so the parser must treat them as the (invalid) bytes they are
